@@ -25,5 +25,36 @@ def _nontrivial(c):
     return len(c["roots"]) >= 2 and faults >= 1
 
 
+def _chain(n, leaf):
+    """a task awaiting a task awaiting ... (n levels) awaiting leaf"""
+    body = [{"op": "yield", "x": "y0", "s": leaf}, {"op": "return", "e": {"var": "y0"}}]
+    for i in range(n):
+        body = [{"op": "yield", "x": "y%d" % (i + 1), "s": {"new": {"task": body}}}, {"op": "return", "e": {"var": "y%d" % (i + 1)}}]
+    return body
+
+
+# the runaway guard trips while a batch item of the same yield is already scheduled; the next computation must not
+# see that batch
+_GUARD_BATCH = {
+    "roots": [
+        [{"op": "yield", "x": "x1", "s": {"tuple": [{"new": {"item": [0, 1, {"set": 5}]}}, {"new": {"task": _chain(6, {"new": {"const": 1}})}}]}},
+         {"op": "return", "e": {"var": "x1"}}],
+        [{"op": "yield", "x": "x2", "s": {"new": {"item": [1, 2, {"set": 6}]}}}, {"op": "return", "e": {"var": "x2"}}],
+    ],
+    "params": {"kinds": {}, "maxstack": 4},
+}
+# the guard trips two synchronous levels down; the outer task catches the error and asks for the active task
+_GUARD_NESTED = {
+    "roots": [[
+        {"op": "let", "h": "h1", "f": {"task": [
+            {"op": "let", "h": "h2", "f": {"task": _chain(6, {"new": {"const": 1}})}},
+            {"op": "sync", "x": "x3", "h": "h2"},
+            {"op": "return", "e": {"var": "x3"}}]}},
+        {"op": "try", "body": [{"op": "sync", "x": "x4", "h": "h1"}], "x": "x5", "handler": [{"op": "probe"}]},
+        {"op": "probe"},
+        {"op": "return", "e": 1}]],
+    "params": {"kinds": {}, "maxstack": 4},
+}
+
 mach.install(globals(), "C08", ("EvProbe", "EvSched"), ("C08:",), PROFILES, n_quick=300, n_thorough=5000,
-             nontrivial=_nontrivial, level="proof")
+             nontrivial=_nontrivial, level="proof", corpus=[_GUARD_BATCH, _GUARD_NESTED])
